@@ -4,8 +4,8 @@
    membership of the written codes is an invariant of EVERY call of the model of set_val,
    whatever its arguments.  The metadata (n_int, upper, lower, precision, dtype) are functions of
    the format in the model; their correctness is C17_limits / C12. *)
-From Coq Require Import ZArith List Bool.
-From FxpVerif Require Import Spec NP Store ProofsCore ProofsStore ProofsWrap ProofsArith ProofsWf Shift ProofsShift.
+From Coq Require Import ZArith List Bool Lia.
+From FxpVerif Require Import Spec NP Store ProofsCore ProofsStore ProofsWrap ProofsArith ProofsWf Shift ProofsShift ProofsHuge.
 Import ListNotations.
 Open Scope Z_scope.
 
@@ -36,9 +36,19 @@ Theorem C02_saturate_side_int : forall f r v, 1 <= nw f -> 0 <= nf f ->
     (v * 2^(nf f) < cmin f -> w_codes w = [cmin f] /\ w_unf w = true /\ w_ovf w = false).
 Proof. exact saturate_side_int. Qed.
 Print Assumptions C02_saturate_side_int.
-(* PARTIAL: the same statement for float inputs of any finite magnitude (object path through an
-   unrounded Python float, possibly infinite after scaling) is modelled and covered by the
-   correspondence run (floats up to 1.7e308), not yet a theorem. *)
+(* the same for float inputs of any finite magnitude: the stored codes are the Spec's
+   quantization, i.e. the bound on the value's own side (C01_store_floats_saturate_any_magnitude) *)
+Theorem C02_saturate_side_float : forall f r vs,
+  1 <= nw f <= 52 -> 0 <= nf f <= 60 -> Forall dbl vs ->
+  exists w, set_val_real f r Saturate false (AF64 (map (fun v => Fin (dm v) (de v)) vs)) VFloat = Ok w /\
+    w_codes w = map (fun v => sat f (round_dy r (dy_scale (nf f) v))) vs /\ Forall (in_range f) (w_codes w).
+Proof.
+  intros f r vs Hw Hf Hv. eexists. split; [exact (set_val_floats_saturate_any f r vs Hw Hf Hv)|].
+  cbn [w_codes spec_wres]. split; [reflexivity|].
+  apply Forall_forall. intros c Hc. apply in_map_iff in Hc. destruct Hc as (v & <- & _).
+  apply (overflow_in_range Saturate f). lia.
+Qed.
+Print Assumptions C02_saturate_side_float.
 
 Example C02_nonvacuous :
   exists w, set_val_real {| sg := true; nw := 8; nf := 4 |} Trunc Saturate false (pyint_arr (- 2^1000)) VInt = Ok w /\
